@@ -65,20 +65,20 @@ Qed.
 
 (* the model's own output passes the executable spec checker, for all scripts, topologies,
    payloads and legal shard orders *)
-Lemma model_spec_ok : forall tries pay cin hin cord hord,
+Lemma model_spec_ok : forall tries pay cin hin cord hord cancel,
   1 <= tries ->
   forallb (legal_order (length cin)) cord = true ->
   forallb (legal_order (length hin)) hord = true ->
-  let '(_, log, ok) := store_documents tries pay cin hin cord hord in
-  spec_ok tries pay cin hin ok log = true.
+  let '(_, log, ok) := store_documents tries pay cin hin cord hord cancel in
+  spec_ok tries pay cin hin cancel ok log = true.
 Proof.
-  intros tries pay cin hin cord hord Ht HC HH.
-  destruct (store_documents tries pay cin hin cord hord) as [[s log] ok] eqn:E.
+  intros tries pay cin hin cord hord cancel Ht HC HH.
+  destruct (store_documents tries pay cin hin cord hord cancel) as [[s log] ok] eqn:E.
   unfold spec_ok. apply andb_true_iff. split; [apply andb_true_iff; split|].
-  - destruct ok; auto. destruct (ack_sound _ _ _ _ _ _ _ _ Ht E) as [A B].
+  - destruct ok; auto. destruct (ack_sound _ _ _ _ _ _ _ _ _ Ht E) as [A B].
     rewrite (spec_ack_of _ _ _ _ A), (spec_ack_of _ _ _ _ B). reflexivity.
   - apply skips_ok_of. eapply skips_sound; eauto.
-  - unfold spec_live.
+  - unfold spec_live. destruct cancel as [k|]; auto.
     destruct (tier_bud (map mk_shard cin) + tier_bud (map mk_shard hin) <? tries) eqn:EB; auto.
     apply Nat.ltb_lt in EB.
     apply (succeeds_when_possible tries pay cin hin cord hord s log ok (legal_all _ _ HC) (legal_all _ _ HH) EB E).
